@@ -174,4 +174,13 @@ example : ((pathsNode witnessExec).filter (fun p => reachVB table witnessExec p)
     ((pathsNode witnessExec).filter (fun p => !reachVB table witnessExec p)).length = 11 := by decide +kernel
 example : ReachV table witnessSmall pathB := reachVB_sound table _ _ (by decide +kernel)
 
+/-- structurally equal siblings (`{ id name id friends { id } id }`, parsed without locations): deleting the SECOND `id`
+    (identity 7, index 2) removes exactly that occurrence — the result is `Spec.editAt` at index 2, not at index 0 -/
+example :
+    sameTree (visit table (actAt 7 fun _ => .delete) 64 witnessDup ())
+      (Spec.editAt [("definitions", some 0), ("selection_set", none), ("selections", some 2)] .delete witnessDup) = true ∧
+    sameTree (visit table (actAt 7 fun _ => .delete) 64 witnessDup ())
+      (Spec.editAt [("definitions", some 0), ("selection_set", none), ("selections", some 0)] .delete witnessDup) = false ∧
+    (idsNode witnessDup).Nodup := by decide +kernel
+
 end PyGql.Props.C18
